@@ -85,13 +85,22 @@ class Contract:
     timeout_ms = None
     max_paths = 4000
     known_ok_unsupported = False
+    split: Dict[str, list] = {}  # parameter name -> values; one verification job per combination (case split, run in parallel)
+    fixed: Dict[str, Any] = {}
 
     # ---- to override
     def setup(self, I: Interp):
         """install extra models etc."""
 
     def make_args(self) -> Dict[str, Any]:
-        return {k: T.fresh_value(t, k) for k, t in self.params.items()}
+        return {k: (self.fixed[k] if k in self.fixed else T.fresh_value(t, k)) for k, t in self.params.items()}
+
+    def arg(self, name, t):
+        """value of a (possibly case-split) parameter inside a custom make_args"""
+        if name in self.fixed:
+            core.register_model_var(name, lambda m, v=self.fixed[name]: repr(v))
+            return self.fixed[name]
+        return T.fresh_value(t, name)
 
     def requires(self, **a):
         return True
@@ -337,6 +346,13 @@ def check_frame(c: Contract, I: Interp, p, args):
         any_write = True
         same = (dict(cont) == snap) if isinstance(cont, dict) else (list(cont) == snap)
         p.check(bool(same), oid, note=f"container {getattr(cont, 'name', '?')} changed")
+    for d in p.ghost.get("data_objects", []):
+        if getattr(d, "pre", False) and d.mutations and (id(d), "data") not in allowed:
+            any_write = True
+            p.check(False, f"{c.target}/frame.callers_data_unchanged", note=f"{getattr(d, 'base_name', getattr(d, 'name', 'data'))} mutated in place: {d.mutations[:3]}")
+    if p.ghost.get("data_objects"):
+        p.check(True, f"{c.target}/frame.callers_data_unchanged", note="no in-place write to a caller-owned data object on this path") if not any(
+            getattr(d, "pre", False) and d.mutations and (id(d), "data") not in allowed for d in p.ghost["data_objects"]) else None
     if not any_write:
         p.check(True, oid, note="no write to a pre-existing object on this path")
 
